@@ -381,3 +381,150 @@ func isLenCall(v ssa.Value) bool {
 	b, ok := c.Common().Value.(*ssa.Builtin)
 	return ok && b.Name() == "len"
 }
+
+// ---- evaluation of a value under one assumed fact about another value ----
+//
+// A helper that returns (value, err) or (value, ok) and is placed at its call site leaves the caller testing a variable
+// that merges the helper's results: `err` is then a phi of the helper's own error (on the edge from the helper's error
+// return) and the constant nil (on the edge from its success return). Under the fact "the helper's error is non-nil"
+// the second edge cannot have been taken, so the merged variable is non-nil as well. factUnder decides that: it
+// evaluates v to nil/non-nil (or false/true) given the fact about e, skipping phi edges whose predecessor can only be
+// reached through a branch on e that contradicts the fact.
+
+// contradictsFact: block p is dominated by the target of an edge B->T (T has no other predecessor) that tests e with the
+// outcome opposite to the fact. kindNil: the fact is "e is nil" == factVal; otherwise "e" (a bool) == factVal.
+func contradictsFact(p *ssa.BasicBlock, e ssa.Value, kindNil bool, factVal bool) bool {
+	for t := p; t != nil; t = t.Idom() {
+		if len(t.Preds) != 1 {
+			continue
+		}
+		b := t.Preds[0]
+		if len(b.Succs) != 2 || b.Succs[0] == b.Succs[1] {
+			continue
+		}
+		si := 0
+		if b.Succs[1] == t {
+			si = 1
+		}
+		cond, truth, ok := core.IfEdge(b, si)
+		if !ok {
+			continue
+		}
+		if kindNil {
+			v, eqNil, ok := core.NilCompare(cond)
+			if ok && v == e && (eqNil == truth) != factVal {
+				return true
+			}
+			continue
+		}
+		neg := false
+		for {
+			u, isNot := cond.(*ssa.UnOp)
+			if !isNot || u.Op != token.NOT {
+				break
+			}
+			cond, neg = u.X, !neg
+		}
+		if cond == e && (truth != neg) != factVal {
+			return true
+		}
+	}
+	return false
+}
+
+// nilUnder: is v nil, given that e is nil (eNil) / non-nil (!eNil)?
+func nilUnder(v, e ssa.Value, eNil bool, depth int) (isNil, known bool) {
+	if v == e {
+		return eNil, true
+	}
+	switch x := v.(type) {
+	case *ssa.Const:
+		if x.Value == nil {
+			return true, true
+		}
+	case *ssa.MakeInterface, *ssa.Alloc, *ssa.MakeClosure, *ssa.MakeMap, *ssa.MakeChan, *ssa.MakeSlice, *ssa.Function, *ssa.Global:
+		return false, true
+	case *ssa.ChangeInterface:
+		return nilUnder(x.X, e, eNil, depth)
+	case *ssa.Phi:
+		if depth <= 0 {
+			return false, false
+		}
+		first := true
+		for i, ed := range x.Edges {
+			if ed == ssa.Value(x) {
+				continue
+			}
+			if i < len(x.Block().Preds) && contradictsFact(x.Block().Preds[i], e, true, eNil) {
+				continue
+			}
+			n, k := nilUnder(ed, e, eNil, depth-1)
+			if !k {
+				return false, false
+			}
+			if first {
+				isNil, first = n, false
+			} else if n != isNil {
+				return false, false
+			}
+		}
+		return isNil, !first
+	}
+	return false, false
+}
+
+// boolUnder: the value of the boolean v, given that the boolean e is eVal.
+func boolUnder(v, e ssa.Value, eVal bool, depth int) (val, known bool) {
+	if v == e {
+		return eVal, true
+	}
+	switch x := v.(type) {
+	case *ssa.Const:
+		if x.Value != nil && x.Value.Kind() == constant.Bool {
+			return constant.BoolVal(x.Value), true
+		}
+	case *ssa.UnOp:
+		if x.Op == token.NOT {
+			b, k := boolUnder(x.X, e, eVal, depth)
+			return !b, k
+		}
+	case *ssa.Phi:
+		if depth <= 0 {
+			return false, false
+		}
+		first := true
+		for i, ed := range x.Edges {
+			if ed == ssa.Value(x) {
+				continue
+			}
+			if i < len(x.Block().Preds) && contradictsFact(x.Block().Preds[i], e, false, eVal) {
+				continue
+			}
+			b, k := boolUnder(ed, e, eVal, depth-1)
+			if !k {
+				return false, false
+			}
+			if first {
+				val, first = b, false
+			} else if b != val {
+				return false, false
+			}
+		}
+		return val, !first
+	}
+	return false, false
+}
+
+// boolEdgeFilter keeps only the edges compatible with the boolean e having the value want.
+func boolEdgeFilter(e ssa.Value, want bool) func(*ssa.BasicBlock, int) bool {
+	return func(b *ssa.BasicBlock, si int) bool {
+		cond, truth, ok := core.IfEdge(b, si)
+		if !ok {
+			return true
+		}
+		if v, known := boolUnder(cond, e, want, 3); known {
+			return v == truth
+		}
+		return true
+	}
+}
